@@ -17,6 +17,7 @@ type RValue struct {
 	T    types.Type // dynamic type of the value
 	Addr Ptr        // address of the value when it is addressable (result of Indirect/Elem)
 	Adr  bool
+	Zero bool // reflect.Zero(T)
 }
 
 func (e *Exec) resolveCallee(f *Frame, c *ssa.CallCommon) (*Closure, []Value) {
